@@ -19,6 +19,7 @@ META = {
 }
 META["explanation"] += " " + "(PROG) every cursor-controlled loop of the parser, UnEscape, the string utilities and the number scanner makes progress: E-ZONE with ghost copies of cursor and bound taken at the start of each iteration proves, on every CFG edge back to the loop head (back edge and every continue), that bound - cursor dropped by at least one; a path on which provably neither changed is a violation; loops outside the difference-bound domain (parseObject/parseArray member loops, whose progress is a callee's, flag-driven loops, divisions) are listed in the evidence as not decided."
 META["explanation"] += " " + '(O14-target, shared with C16) the containers the parser fills never run a destructor on a parameter, a local or an ordinary member in place.'
+META["explanation"] += " " + 'E-ZONE gives a constant-extent array variable (a local or static lookup table) its own bound: 0 <= index < extent must be proven at every subscript.'
 
 KEYS = [
     "Qentem::JSON::JSONParser::Parse", "Qentem::JSON::JSONParser::parseValue",
@@ -28,6 +29,10 @@ KEYS = [
     "Qentem::Digit::HexStringToNumber/3", "Qentem::Digit::HexStringToNumber/2",
 ]
 
+
+META["explanation"] += " " + '(ZB-ens) a callee contract may state what the result is bounded by (UnEscape returns at most the length it was given); the bound is verified at every return of the callee and kept at call sites beside the two-variable facts (term <= linear form), so str[len - 1] after len = UnEscape(str, length - offset, stream) is proven in range.'
+
+META["explanation"] += " " + '(REC-bound, shared with C01) call-graph rule: every cycle among the text-taking functions of JSON.hpp (parseValue -> parseArray/parseObject -> parseValue) is cut by a call that passes depth + k and is dominated by the true edge of depth < CONST, so the stack depth is not chosen by the text.'
 
 def run(ctx):
     m = ctx.pattern()
@@ -46,4 +51,7 @@ def run(ctx):
     # "no write outside owned memory" includes the parser's own storage: the containers it fills never destroy an object twice
     from rules.common import rule_dispose_target
     out.append(rule_dispose_target(ctx, m, files=["HArray.hpp", "HashTable.hpp", "Array.hpp", "Value.hpp", "String.hpp", "JSON.hpp"]))
+    # "terminates" includes the machine stack: one level of recursion per level of nesting needs a bound
+    from rules.common import rule_recursion_bound
+    out.append(rule_recursion_bound(ctx, m, "JSON.hpp"))
     return out
